@@ -137,9 +137,14 @@ func (p *Parser) ReadPeek() {
 			// Skip Fastly pgrama embedded data
 			for {
 				t = p.tk.NextToken()
-				if t.Type == token.SEMICOLON {
+				if t.Type == token.SEMICOLON || t.Type == token.EOF {
 					break
 				}
+			}
+			if t.Type == token.EOF {
+				// Unterminated pragma: hand EOF to the parser instead of
+				// reading past the end of input forever
+				break
 			}
 			continue
 		}
